@@ -79,7 +79,10 @@ func mainContainerName(p *corev1.Pod) string {
 func (w *World) KubeletRun(key string) bool {
 	w.asKubelet()
 	p := w.pod(key)
-	if p == nil || p.Spec.NodeName == "" || p.Status.Phase == corev1.PodRunning || isTerminal(p) || p.DeletionTimestamp != nil {
+	// A Pod that is already terminating may still report its container as started
+	// (and later as exited, possibly with code 0 after handling SIGTERM): the
+	// deletion request and the container start race in a real kubelet.
+	if p == nil || p.Spec.NodeName == "" || p.Status.Phase == corev1.PodRunning || isTerminal(p) {
 		return false
 	}
 	now := metav1.NewTime(w.Clock.Now())
@@ -120,7 +123,12 @@ func (w *World) KubeletFinish(key string, out Outcome) bool {
 		term.ExitCode = 1
 		term.Reason = "Error"
 	}
-	p.Status.ContainerStatuses = []corev1.ContainerStatus{{Name: mainContainerName(p), State: corev1.ContainerState{Terminated: term}}}
+	cs := corev1.ContainerStatus{Name: mainContainerName(p), State: corev1.ContainerState{Terminated: term}}
+	if len(p.Status.ContainerStatuses) > 0 { // an earlier incarnation of the container (restart in place) stays on record
+		cs.LastTerminationState = p.Status.ContainerStatuses[0].LastTerminationState
+		cs.RestartCount = p.Status.ContainerStatuses[0].RestartCount
+	}
+	p.Status.ContainerStatuses = []corev1.ContainerStatus{cs}
 	w.writePodStatus(p)
 	return true
 }
@@ -153,7 +161,13 @@ func (w *World) KubeletUnflap(key string) bool {
 // KubeletRestartContainer: the container of a running Pod (restartPolicy
 // OnFailure) fails and is restarted in place: the Pod stays Running, the
 // container status carries the previous termination in lastState.
-func (w *World) KubeletRestartContainer(key string) bool {
+func (w *World) KubeletRestartContainer(key string) bool { return w.kubeletRestartContainer(key, false) }
+
+// KubeletRestartContainerOOM: as KubeletRestartContainer, the previous
+// incarnation having been OOM-killed.
+func (w *World) KubeletRestartContainerOOM(key string) bool { return w.kubeletRestartContainer(key, true) }
+
+func (w *World) kubeletRestartContainer(key string, oom bool) bool {
 	w.asKubelet()
 	p := w.pod(key)
 	if p == nil || p.Status.Phase != corev1.PodRunning || len(p.Status.ContainerStatuses) == 0 || p.Spec.RestartPolicy != corev1.RestartPolicyOnFailure {
@@ -165,7 +179,11 @@ func (w *World) KubeletRestartContainer(key string) bool {
 	if cs.State.Running != nil {
 		started = cs.State.Running.StartedAt
 	}
-	cs.LastTerminationState = corev1.ContainerState{Terminated: &corev1.ContainerStateTerminated{ExitCode: 1, Reason: "Error", StartedAt: started, FinishedAt: now}}
+	last := &corev1.ContainerStateTerminated{ExitCode: 1, Reason: "Error", StartedAt: started, FinishedAt: now}
+	if oom {
+		last.ExitCode, last.Reason = 137, "OOMKilled"
+	}
+	cs.LastTerminationState = corev1.ContainerState{Terminated: last}
 	cs.State = corev1.ContainerState{Running: &corev1.ContainerStateRunning{StartedAt: now}}
 	cs.RestartCount++
 	w.writePodStatus(p)
